@@ -2,7 +2,8 @@
 """Regenerates /verif/MANIFEST.json from checks.json (single source of truth)."""
 import json, os, subprocess
 V = os.path.dirname(os.path.dirname(os.path.abspath(__file__)))
-cfg = json.load(open(os.path.join(V, "checks.json")))
+import glob
+cfg = {os.path.basename(f)[:-5]: json.load(open(f)) for f in glob.glob(os.path.join(V, "checks.d", "C*.json"))}
 props = [json.loads(l) for l in open(os.path.join(V, "properties.jsonl"))]
 hooks_commits = []
 hp = os.path.join(V, "MANIFEST.hooks")
